@@ -127,10 +127,11 @@ UfuncStep(f, x, y) ==
   IN IF Tag(out) = "ragged" THEN NewFresh(<<out[2], out[3]>>, <<mout[2], mout[3]>>, m, {hs[i][2] : i \in DOMAIN hs}) /\ last' = <<"new", Len(heap) + 1>>
      ELSE /\ UNCHANGED <<heap, alias, stale>> /\ bufs' = m[1] /\ view' = m[2] /\ last' = <<"obs", out, mout>>
 
-\* array functions producing a new array: name in "cumsum" "sort" "diff" "unique" (arg = n for diff), "concat" (arg = <<h2, axis>>)
+\* array functions producing a new array: name in "cumsum" "sort" "diff" "unique" "astype" (arg = n for diff), "concat" (arg = <<h2, axis>>)
 FuncStep(name, h, arg) ==
   LET F(A(_)) == CASE name = "concat" -> Concat(<<A(h), A(arg[1])>>, arg[2])
                    [] name = "diff" -> Scan("diff", A(h), arg)
+                   [] name = "astype" -> <<"ragged", A(h)[1], A(h)[2]>>          \* astype(own dtype): an equal, independent array
                    [] OTHER -> Scan(name, A(h), 0)
       out == F(LAMBDA g : heap[g])
       mout == F(MArr)
